@@ -14,11 +14,27 @@ MANIFEST = dict(
           "every v, exact means) whose integer decisions are regenerated from the sources on every run; the extracted "
           "model instantiated at IEEE binary64 is compared bit for bit with the real library (percentiles, positions, "
           "thresholds from ratios/percentiles, counts, means, medians, bin lookups) and an independent exact-integer "
-          "oracle is applied to the library's answers."),
-    note=("Coq kernel + PrimFloat; translator (12 kernels); extraction (ExtrOCamlFloats/Int63); harness (rel build + "
+          "oracle is applied to the library's answers. Extension (C20_FloatDefs/C20_Float, through Flocq): for EVERY "
+          "dyadic percentage k/2^j and EVERY size n with k(n-1) < 2^53 (j <= 1015) the binary64 product p*(n-1) is exact, "
+          "the quotient by 100 is correctly rounded and lpos/rpos are floor/ceil of the exact rational position, hence "
+          "percentile = the sorted-array reference for lists of any length (C20_position_exact, C20_percentile_exact, "
+          "C20_median_all); for every double in [0,100] the position is the twice rounded real expression, the indices "
+          "stay in range, are neighbours and are monotone in p (C20_position_any/_monotone); the binary64 midpoint of the "
+          "repaired code (/repo 985fdb5: isfinite(a+b) ? (a+b)/2 : a/2+b/2) is finite and lies in [a,b] for ALL finite "
+          "a <= b, equals fl(fl(a+b)/2) when the sum is finite and the correctly rounded exact midpoint when it overflows "
+          "(C20_midpoint; the pre-repair expression is kept as C20_midpoint_prefix_refuted, witness DBL_MAX twice); three "
+          "refuted position statements with witnesses (the first round's conjecture for j<=20, n<=2^31 is false; beyond "
+          "2^53; underflow). The position "
+          "expression, the index casts and the two-branch midpoint are translated from stats.h on every run (group pctpos) and "
+          "pinned by C20_kernel_position/_indices. A POS/MID stage runs detail::percentile over a lazily generated "
+          "sorted array (n up to 2^46+1) aimed at integral and next-to-integral exact positions: bit-exact "
+          "correspondence, theorem instances evaluated on the library's indices, independent 128-bit oracle."),
+    note=("Coq kernel + PrimFloat + Flocq (FloatAxioms specs of mul/div/add/of_uint63/leb, classical reals); "
+          "translator (17 kernels); extraction (ExtrOCamlFloats/Int63); harness (rel build + "
           "header-only ASan/UBSan build) + OCaml driver; std::sort/nth_element/upper_bound modelled by their contracts; "
-          "position exactness proved on a finite grid only, searched beyond it; exponent-derived thresholds (log/pow) "
-          "are taken from the implementation."),
+          "position exactness is proved for k(n-1) < 2^53 and is false beyond (witnesses); there the position follows "
+          "the binary64 value of p (proved) and the decimal/real rule is only searched with a one-position tolerance; "
+          "exponent-derived thresholds (log/pow) are taken from the implementation."),
     technique="Coq proof over a translated+extracted model, bit-exact differential correspondence, exact-integer oracle",
     design="DESIGN.md section 2, C20")
 
@@ -40,7 +56,7 @@ def _replay(r, replay):
     import json
     d = json.load(open(replay))
     cmd = d.get("replay_cmd", "")
-    m = re.search(r"c20_stats (pct|hist) (.*)$", cmd)
+    m = re.search(r"c20_stats (pct|hist|pos|mid) (.*)$", cmd)
     if not m:
         return None
     ex = (vlib.build_harness("c20_stats", "asan", need_lib=False, extra=ASAN_EXTRA) if "harness-asan" in cmd
@@ -133,6 +149,12 @@ def run(tier, replay=None):
                    "operation": d["op"], "what": d["why"], "input": {a: b for a, b in d.items() if a not in ("op", "why")}}
         if d["op"] == "PCT":
             payload["replay_cmd"] = "%s pct %s %s" % (ex, d.get("p", "?"), d.get("values", "-"))
+        elif d["op"] == "POS":
+            payload["replay_cmd"] = "%s pos %s %s" % (ex, d.get("p", "?"), d.get("n", "?"))
+        elif d["op"] == "POSM":
+            payload["replay_cmd"] = "%s pos %s %s ; %s pos %s %s" % (ex, d.get("p", "?"), d.get("n", "?"), ex, d.get("q", "?"), d.get("n", "?"))
+        elif d["op"] == "MID":
+            payload["replay_cmd"] = "%s mid %s %s" % (ex, d.get("a", "?"), d.get("b", "?"))
         elif d["op"] == "HIST":
             payload["replay_cmd"] = "%s hist %s %s %s" % (ex, d.get("param", "-") or "-", d.get("values", "-") or "-",
                                                           d.get("queries", "-") or "-")
@@ -143,6 +165,7 @@ def run(tier, replay=None):
 
     # 4. correspondence with the extracted model (binary64 instance bit for bit, integer instance on grid data)
     mism, checked, zchecked = [], 0, 0
+    propfails, pos_stats = [], collections.Counter()
     drv = None
     try:
         drv = vlib.build_ocaml("c20_driver", "c20_model.ml", "c20_driver.ml", floats=True)
@@ -154,13 +177,28 @@ def run(tier, replay=None):
             rc2, mout = vlib.sh("%s < %s" % (drv, path), timeout=3000)
             c0 = checked
             for l in mout.split("\n"):
-                if l.startswith(("MISMATCH", "XMISMATCH", "PROPFAIL")):
+                if l.startswith("PROPFAIL"):
+                    propfails.append((l, path))
+                elif l.startswith(("MISMATCH", "XMISMATCH")):
                     mism.append(l)
+                elif l.startswith("POS-STAGE"):
+                    for kv in l.split()[1:]:
+                        a, _, b = kv.partition("=")
+                        pos_stats[a] += int(b)
                 elif l.startswith("MODEL-DONE"):
                     checked += int(l.split("checked=")[1].split()[0])
                     zchecked += int(l.split("exact_instance_checked=")[1].split()[0])
             if rc2 != 0 or checked == c0:
                 r.violation("driver", {"kind": "model driver failed", "out": mout[-2000:]}, no_input=True)
+        # a proved clause evaluated on the library's own answer failed: concrete input (the POS / MID line)
+        for i, (l, path) in enumerate(propfails[:3]):
+            line, _, what = l[len("PROPFAIL "):].partition(" // ")
+            toks = line.split()
+            ex = exe_asan if path == out_asan else exe
+            rc = ("%s pos %s %s" % (ex, toks[1], toks[2])) if toks and toks[0] == "POS" and len(toks) > 2 else \
+                 ("%s mid %s %s" % (ex, toks[1], toks[2])) if toks and toks[0] == "MID" and len(toks) > 2 else ""
+            r.violation("thm-%d" % i, {"kind": "a proved clause does not hold of the implementation's answer on this input",
+                                       "implementation_line": line[:2000], "clause": what[:2000], "replay_cmd": rc})
         had_impl = bool(r.violations)
         for i, l in enumerate(mism[:3]):
             body, _, vals = l.partition(" // values: ")
@@ -175,7 +213,9 @@ def run(tier, replay=None):
                         no_input=not had_impl)
     vlib.handle_coq_failure(r, cres)
     vlib.proof_coverage(r, cres, "make -C coq theories/Properties_C20.vo && coqc theories/Properties_C20.v (Print Assumptions)",
-                        ["tools/translate.py (11 kernels of stats.h/histogram.h + the shared numeric group)",
+                        ["tools/translate.py (16 kernels of stats.h/histogram.h + the shared numeric group)",
+                         "Flocq 4 (BinarySingleNaN, IEEE754.PrimFloat: Bmult/Bdiv/Bplus_correct, relative_error_N_FLT) over the "
+                         "FloatAxioms specifications of the primitive float operations; classical real numbers",
                          "extraction: ExtrOcamlBasic + ExtrOCamlFloats + ExtrOCamlInt63 (binary64 = OCaml float via coq-core Float64)",
                          "std::sort / std::nth_element / std::upper_bound (libstdc++) meet their contracts "
                          "(sorted permutation, k-th order statistic, partition point); checked on every generated input",
@@ -201,6 +241,8 @@ def run(tier, replay=None):
                     cur_n = l.count(",") + 1
                     sizes["1" if cur_n == 1 else "2-12" if cur_n <= 12 else "13-60" if cur_n <= 60 else "61-200" if cur_n <= 200 else "201-500"] += 1
                     vh = vlib.sha(l)
+                elif op in ("POS", "MID"):
+                    distinct.add(vlib.sha(l))
                 elif op in ("PCT", "MED", "HIST", "HISTR", "HISTP", "HISTE", "BIN", "STATS"):
                     if cur_n > 1:
                         distinct.add(vlib.sha(vh + l))
@@ -216,17 +258,32 @@ def run(tier, replay=None):
                    "their grid neighbours, decimal grids, arbitrary doubles, extremes), median, 2 histograms from 1..20 direct "
                    "thresholds (on/between/one ulp off data values, duplicates, outside the range), histograms from ratios, "
                    "percentiles and exponents, bin() queries on/next to/between/beyond thresholds incl. non-integers; "
-                   "non-trivial = distinct (list, operation, result) line with a list of at least 2 values")
+                   "non-trivial = distinct (list, operation, result) line with a list of at least 2 values; position stage: "
+                   "6000 (thorough 60000) rounds of ~7 POS lines (sizes 2..2^46+1; dyadic percentages k/2^j, j <= 26, with "
+                   "exact position integral / 1/(100 2^j) next to an integer / random inside the side condition; simple "
+                   "percentages with n = 2^20..2^46; one ulp around 100 z/(n-1); decimal percentages on sizes where the "
+                   "decimal position is integral; subnormal and tiny percentages) + 2 MID lines (ordinary, subnormal, "
+                   "adjacent pairs; permanently: pairs whose sum overflows or straddles the overflow threshold 2^1024 - 2^970, "
+                   "both signs, one operand just below 2^1023, mixed signs); every distinct POS/MID line counts")
     cov["op_histogram"] = dict(ops + ops_a)
     cov["list_size_histogram"] = dict(sizes)
     cov["percentage_kinds"] = dict(pcts)
+    cov["position_stage"] = dict(pos_stats)
+    cov["position_stage_rule"] = ("POS p n: detail::percentile over the lazily generated array a[i]=i; theorem_instances = lines "
+                                  "inside the side condition of C20_position_exact (k(n-1) < 2^53, j <= 1015) on which the "
+                                  "library's lpos/rpos were compared with the exact floor/ceil; integral = those whose exact "
+                                  "position is an integer; large_n = those with n >= 2^20; range_instances = lines in the domain "
+                                  "of C20_position_any; MID a b: clauses of C20_midpoint on the library's value (finite, in [a,b]; = fl(fl(a+b)/2) "
+                                  "when a+b is finite; mid_overflow = lines on which a+b overflows)")
     cov["mismatches"] = len(mism)
+    cov["theorem_instance_failures"] = len(propfails)
     cov["impl_direct_failures"] = len(fails) + len(fails_a)
     cov["samples"] = samples or ["(no sample collected)"]
     cov["unproved_clauses_searched"] = [
-        "C20_position_exact_full_statement: binary64 position = exact rational position for every dyadic percentage and "
-        "large n (proved only on the grid k/16 x n<=512): exact-integer oracle on every generated percentage that is a "
-        "multiple of 2^-20, and model positions compared with the library's lpos/rpos on every PCT line",
+        "position beyond the side condition k(n-1) < 2^53 (decimal percentages such as 8.8, 53-bit percentages, n-1 > 2^46): "
+        "proved to follow the binary64 value of p and to stay in range (n-1 <= 2^46); agreement with the exact real/decimal "
+        "position is FALSE in general (C20_position_beyond_refuted, C20_position_exact_full_refuted) and only searched: "
+        "indices within one of the exact ones, bit-exact model comparison on every PCT/POS line",
         "thresholds from exponents (std::log/std::pow are not modelled): thresholds taken from the implementation, the "
         "partition/bin clauses are checked with them",
         "make_equidistant_percentiles/ratios (Eigen LinSpaced): taken from the implementation, range/monotonicity checked",
